@@ -180,7 +180,8 @@ func (obj *NormalIWishartDistribution) GetParameters() Vector {
   p  = p.AppendScalar(obj.Nu)
   p  = p.AppendVector(obj.Mu)
   p  = p.AppendVector(obj.S.AsVector())
-  return p
+  // the result must not share elements with the distribution
+  return p.CloneVector()
 }
 
 func (obj *NormalIWishartDistribution) SetParameters(parameters Vector) error {
